@@ -302,7 +302,25 @@ def builder(R, P):
         piece = argstr(f, e, 1)
         if blk in inloop:
             continue  # per-parameter pieces: accounting rule below
-        if piece == "query_app" and any("query_params" in f.show(f.d(c)) for c, p, b in RU.guards(f, [x for x in f.calls("aws_byte_buf_append") if x.node is e][0])):
+        def _piece_text(pn):
+            """the literal a cursor stands for: a local made by aws_byte_cursor_from_c_str("..") or a file-scope constant cursor"""
+            pn = pn.lstrip("&")
+            g_ = P.globals.get(pn)
+            if g_ and isinstance(g_.get("init"), dict):
+                return ((g_["init"].get("struct") or {}).get("ptr") or {}).get("str")
+            for d_ in f.all_events():
+                if d_.kind == "decl":
+                    for v_ in d_.node["vars"]:
+                        if v_["n"] == pn and v_.get("init") is not None:
+                            c_ = RU.uncast(f, v_["init"])
+                            if c_ is not None and c_["k"] == "call" and c_.get("callee") == "aws_byte_cursor_from_c_str":
+                                a_ = RU.uncast(f, c_["a"][0])
+                                while a_ is not None and a_["k"] == "decay":
+                                    a_ = f.d(a_["a"][0])
+                                if a_ is not None and a_["k"] == "str":
+                                    return a_["v"]
+            return None
+        if _piece_text(piece) == "?" and any("query_params" in f.show(f.d(c)) for c, p, b in RU.guards(f, [x for x in f.calls("aws_byte_buf_append") if x.node is e][0])):
             R.assumed_sites.append({"site": "BUILDER:'?' before a parameter list", "reason": "room for '?' is reserved only when the list is non-empty; with an empty list the append may fail and the URI has no query part, which is what an empty list means"})
             continue
         n += 1
@@ -349,6 +367,11 @@ def builder(R, P):
         terms(inc, et, ec)
     at, ac = [], 0
     lit = {}
+    for gn_, g_ in P.globals.items():
+        # file-scope constant cursors (AWS_BYTE_CUR_INIT_FROM_STRING_LITERAL)
+        li_ = ((g_.get("init") or {}).get("struct", {}) if isinstance(g_.get("init"), dict) else {}).get("len")
+        if g_.get("const") and isinstance(li_, dict) and isinstance(li_.get("int"), int):
+            lit[gn_] = li_["int"]
     for e in f.calls("aws_byte_cursor_from_c_str"):
         a0 = RU.uncast(f, e.node["a"][0])
         while a0 is not None and a0["k"] == "decay":
